@@ -127,7 +127,7 @@ fn change_frequency_case(config: KalmanConfiguration) {
 
 
 // @harness c13_change_frequency
-// @props C13 C03
+// @props C13 C03:thorough
 // @tier quick
 // @stubbing yes
 // @timeout 2400
@@ -227,7 +227,7 @@ fn final_command(update: bool) {
 }
 
 // @harness c13_demobilize
-// @props C13 C08 C03
+// @props C13 C08:thorough C03:thorough
 // @tier quick
 // @stubbing yes
 // @timeout 1800
@@ -255,7 +255,7 @@ fn c13_demobilize() { final_command(false) }
 fn c13_update() { final_command(true) }
 
 // @harness c13_progress_filtertime_backwards
-// @props C03 C13
+// @props C13 C03
 // @tier quick
 // @timeout 900
 // @functions InnerFilter::progress_filtertime, BaseFilter::absorb_frequency_steer
